@@ -71,13 +71,19 @@ func DrawSibling(t *rapid.T, prev *OpDesc) OpDesc {
 // callers at once.
 func DrawStorm(t *rapid.T, nclients int) [][]OpDesc {
 	d0 := DrawOp(t)
-	switch rapid.IntRange(0, 7).Draw(t, "stormkind") {
+	switch rapid.IntRange(0, 10).Draw(t, "stormkind") {
 	case 0, 1, 2, 3:
 		d0.Kind = 0 // filters are the hot path where caches and fast paths get added
 	case 4, 5:
 		d0.Kind = len(frameOps) - 2 // "renew": several callers building frames at once
 	case 6:
 		d0.Kind = kindIndex("equals") // all callers comparing two (possibly large) frames
+	case 7, 8:
+		// all callers grouping at once (tables, pools and seeds shared by groupings)
+		d0.Kind = kindIndex([]string{"aggregate-direct", "groupby", "distinct"}[rapid.IntRange(0, 2).Draw(t, "stormgroup")])
+	case 9:
+		// all callers serialising at once
+		d0.Kind = kindIndex([]string{"tojson", "tocsv", "string"}[rapid.IntRange(0, 2).Draw(t, "stormser")])
 	}
 	switch rapid.IntRange(0, 3).Draw(t, "stormrecv") {
 	case 0, 1:
